@@ -40,6 +40,42 @@ def delegated(work, fmts, verdict):
     return out
 
 
+def observe_formats(pid, verdict, work, fmts, tier, seed, keyprefix):
+    """format() on the given formats (drv_format's zones x instants x femtoseconds), every event judged by FormatTrace.
+    Used by other properties that are observable through format() (C17: %a %A %j %u %w %U %W)."""
+    sub = os.path.join(work, "fmtobs")
+    os.makedirs(sub, exist_ok=True)
+    dele = delegated(sub, fmts, verdict)
+    inp = os.path.join(sub, "in.txt")
+    open(inp, "w").write("".join("F %s %s\n" % (f.hex() or "-", " ".join(d.hex() for d in dele.get(f, []))) for f in fmts))
+    try:
+        exe = V.build_driver("drv_format", "asan")
+    except V.BuildError as e:
+        verdict.infra_failure("build failed: %s" % str(e)[-400:])
+        return 0, 0, 0
+    dr = V.run_driver(exe, [inp, os.path.join(sub, "t"), max(2, V.NCPU - 2), seed, "thorough"], timeout=3000,
+                      env={"TZDIR": os.path.join(V.REPO, "testdata", "zoneinfo")})
+    if dr.returncode != 0:
+        verdict.violation("driver-crash:rc%d" % dr.returncode, "drv_format died (sanitizer report / crash): " + dr.stderr[-800:])
+    events = states = trans = 0
+    for path, res in V.validate_shards("FormatTrace", "FormatTrace.cfg", sorted(glob.glob(os.path.join(sub, "t.*.ndjson"))), timeout=3000):
+        ls = open(path).read().splitlines()
+        events += len(ls)
+        if res.infra_failure or res.distinct != len(ls) + 1:
+            verdict.infra_failure("TLC on %s: %s" % (os.path.basename(path), res.tail(8)))
+            continue
+        states += res.distinct
+        trans += res.generated - 1
+        for n in V.reject_lines(res):
+            e = json.loads(ls[n - 1])
+            ftxt = bytes(e["fmt"]).decode("latin-1")
+            e["fmt_text"] = ftxt
+            e["out_text"] = bytes(e.get("out", [])).decode("latin-1")
+            verdict.violation("%s:%s:%s" % (keyprefix, "ub" if e["ub"] else "output", ftxt[:24]),
+                              "format(%r) rejected by FormatTrace: %s" % (ftxt, json.dumps({k: v for k, v in e.items() if k not in ("fmt", "out", "env")})[:300]), e)
+    return events, states, trans
+
+
 def run(pid, tier, seed):
     t0 = time.time()
     verdict = V.Verdict(pid)
